@@ -20,7 +20,37 @@ fn watch_sk(k: &PrivateKey, what: &str) -> Watched {
     Watched { slot: allocmon::watch(k.as_bytes().as_ptr(), 32), what: what.to_string() }
 }
 
+thread_local! {
+    /// blocks that were still allocated when their handle went away (a container may share its bytes
+    /// between clones): judged when the block is released, at the latest at the next quiescent point
+    static PENDING: std::cell::RefCell<Vec<(Watched, String)>> = const { std::cell::RefCell::new(Vec::new()) };
+}
+
 fn settle(ctx: &Ctx, w: Watched, order: &str) {
+    if w.slot != usize::MAX && allocmon::verdict(w.slot).0 == 0 {
+        PENDING.with(|p| p.borrow_mut().push((w, order.to_string())));
+        return;
+    }
+    settle_now(ctx, w, order)
+}
+
+/// Quiescent point: every handle made so far has been dropped. A block that is still allocated now was
+/// leaked rather than released; the statement says nothing about memory that is never released, so
+/// this is reported as inconclusive, not as a violation.
+fn quiescent(ctx: &Ctx) {
+    let pending: Vec<(Watched, String)> = PENDING.with(|p| p.borrow_mut().drain(..).collect());
+    for (w, order) in pending {
+        if allocmon::verdict(w.slot).0 == 0 {
+            allocmon::unwatch(w.slot);
+            ctx.inconclusive(&format!("C20: the block of a {} ({}) was never released although every handle was dropped (leaked, cannot be judged)", w.what, order));
+        } else {
+            ctx.seen("judged at a later release than the handle's own drop (bytes shared between handles)");
+            settle_now(ctx, w, &order);
+        }
+    }
+}
+
+fn settle_now(ctx: &Ctx, w: Watched, order: &str) {
     ctx.eval();
     if w.slot == usize::MAX {
         ctx.inconclusive("watch table full");
@@ -117,6 +147,7 @@ pub fn run(ctx: &Ctx) {
             for w in watched {
                 settle(ctx, w, &order);
             }
+            quiescent(ctx);
             if round == 0 && p == &perms[17] {
                 ctx.sample("drop-order permutation", 1, || json!({"constructors": names, "drop_order": p, "verdict": "all five blocks all-zero at dealloc"}));
             }
@@ -241,6 +272,44 @@ pub fn run(ctx: &Ctx) {
         } else {
             ctx.seen("released all-zero: PayloadKey clone (slot, drop_in_place)");
         }
+        quiescent(ctx);
+    }
+    // clones released by several threads at the same moment (a container that shares its bytes between
+    // clones has to decide which release wipes them; a release order decided by a race is still an order)
+    {
+        let rounds = ctx.tier.pick(4_000, 150_000);
+        let mut skews = std::collections::BTreeSet::new();
+        for round in 0..rounds {
+            let nthreads = 2 + round % 3;
+            let raw = rng.bytes(32);
+            let k0 = if round % 2 == 0 { PrivateKey::try_from(&raw[..]).unwrap() } else { PrivateKey::generate() };
+            let mut keys = vec![k0];
+            for i in 1..nthreads {
+                let c = keys[(i - 1) / 2].clone();
+                keys.push(c);
+            }
+            let watched: Vec<Watched> = keys.iter().enumerate().map(|(i, k)| watch_sk(k, if i == 0 { "try_from/generate (concurrent)" } else { "clone (concurrent)" })).collect();
+            let barrier = std::sync::Barrier::new(nthreads);
+            let skew = (round / 7) % 40;
+            skews.insert((nthreads, skew));
+            std::thread::scope(|sc| {
+                for (i, k) in keys.drain(..).enumerate() {
+                    let b = &barrier;
+                    sc.spawn(move || {
+                        b.wait();
+                        for _ in 0..(i * skew) {
+                            std::hint::spin_loop();
+                        }
+                        drop(k);
+                    });
+                }
+            });
+            for w in watched {
+                settle(ctx, w, &format!("released by {} threads at once", nthreads));
+            }
+            quiescent(ctx);
+        }
+        ctx.note("concurrent_release", json!({"rounds": rounds, "distinct_thread_count_and_skew_settings": skews.len(), "cpus": crate::util::ncpu()}));
     }
     // informational: by-value scan of every freed block while the library works with a registered secret
     {
@@ -269,9 +338,24 @@ pub fn run(ctx: &Ctx) {
         crate::c18::judge_miri(ctx, "C20", "c20", &o);
         ctx.sample("miri run", 1, || json!({"mode": "c20", "stdout": o.stdout_s().trim()}));
     }
+    // concurrent release under Miri's scheduler: one execution per scheduler seed, raised preemption rate
+    let nseeds = ctx.tier.pick(12, 160);
+    let base = ctx.seed % 1000 * 1000;
+    if let Some(o) = crate::c18::miri_run_flags(ctx, "c20-conc", ctx.seed, 1500, &format!("-Zmiri-many-seeds={}..{} -Zmiri-preemption-rate=0.2", base, base + nseeds)) {
+        if crate::c18::judge_miri(ctx, "C20", "c20-conc", &o) {
+            let clean = o.stdout_s().lines().filter(|l| l.starts_with("KMIRI-OK c20-conc")).count();
+            ctx.seen_n("miri c20-conc: distinct scheduler seeds whose execution released only wiped blocks", clean as u64);
+            for i in 0..clean {
+                ctx.distinct(&format!("miri-sched|{}", base + i as u64));
+            }
+            ctx.sample("miri concurrent release", 1, || json!({"mode": "c20-conc", "scheduler_seeds": format!("{}..{}", base, base + nseeds), "preemption_rate": 0.2, "clean_executions": clean}));
+        }
+    }
+    ctx.require("miri c20-conc: distinct scheduler seeds", ctx.tier.pick(12, 160));
     ctx.require("released all-zero: try_from", 100);
     ctx.require("released all-zero: generate", 100);
     ctx.require("released all-zero: clone", 100);
+    ctx.require("released all-zero: clone (concurrent)", 1000);
     ctx.require("released all-zero: PayloadKey", 10);
     ctx.require("released all-zero: Box<PayloadKey>", 10);
     ctx.require("miri c20", 1);
